@@ -68,6 +68,11 @@ def do_call(ex, e, st):
         return consume(ex, e, st)
     tgt = ex.static(f, st)
     outs = []
+    if tgt == ('lib', 'builtins.isinstance') and len(e.args) == 2 and not e.keywords:
+        # the class argument is interpreted statically (class, tuple of classes, module-level constant), not evaluated
+        for s1, r in ex.ev(e.args[0], st):
+            outs += [(s1, r)] if r[0] == 'exc' else call_lib(ex, s1, 'builtins.isinstance', [r[1]], {}, e)
+        return outs
     if tgt is not None and tgt[0] in ('class', 'lib', 'func', 'classattr'):
         for a in eval_args(ex, e, st):
             if len(a) == 2:
